@@ -89,7 +89,8 @@ class HTTPConnection(Mapping[str, Any], MoreInfoFromHeaderMixin):
         """
         Query parameter. It is a multi-value mapping.
         """
-        return QueryParams(self["QUERY_STRING"])
+        # PEP 3333: QUERY_STRING "may be empty or absent"
+        return QueryParams(self.get("QUERY_STRING", ""))
 
     @cached_property
     def headers(self) -> Headers:
